@@ -371,6 +371,87 @@ def run_k1(rep: Report, tier: str) -> None:
         rep.candidate(f"lib-rt {o.kernel}: {o.label}", f"operand words {o.model} violate: {o.label}", o.model, mypyc_replay.replay_primitive(o.kernel, o.model))
 
 
+DIGITS_SHIM = """
+#include <Python.h>
+#include "CPy.h"
+#include "int_ops.c"
+static inline __attribute__((always_inline)) uint64_t recon(digit *buf, Py_ssize_t size) {
+    Py_ssize_t len = size < 0 ? -size : size;
+    uint64_t v = 0;
+    if (len > 0) v |= (uint64_t)buf[0];
+    if (len > 1) v |= (uint64_t)buf[1] << PyLong_SHIFT;
+    if (len > 2) v |= (uint64_t)buf[2] << (2 * PyLong_SHIFT);
+    return v;
+}
+uint64_t k_digits_value(CPyTagged n) { if (n & 1) return 0; digit buf[3] = {0, 0, 0}; Py_ssize_t size; GetIntDigits(n, &size, buf); return recon(buf, size); }
+int64_t k_digits_size(CPyTagged n) { if (n & 1) return 0; digit buf[3] = {0, 0, 0}; Py_ssize_t size; GetIntDigits(n, &size, buf); return size; }
+uint64_t k_digit0(CPyTagged n) { if (n & 1) return 0; digit buf[3] = {0, 0, 0}; Py_ssize_t size; GetIntDigits(n, &size, buf); return buf[0]; }
+uint64_t k_digit1(CPyTagged n) { if (n & 1) return 0; digit buf[3] = {0, 0, 0}; Py_ssize_t size; GetIntDigits(n, &size, buf); return buf[1]; }
+uint64_t k_digit2(CPyTagged n) { if (n & 1) return 0; digit buf[3] = {0, 0, 0}; Py_ssize_t size; GetIntDigits(n, &size, buf); return buf[2]; }
+uint64_t k_shift(void) { return PyLong_SHIFT; }
+"""
+
+
+def run_digits(rep: Report, tier: str) -> None:
+    """int_ops.c GetIntDigits on a short tagged int (the digit view used by the bitwise slow path):
+    sign, minimal digit count and value of the base-2^PyLong_SHIFT digits, for every short int."""
+    work = scratch("c15d-")
+    try:
+        ir = L.compile_ir(DIGITS_SHIM, work, opt="-O2")
+    finally:
+        shutil.rmtree(work, ignore_errors=True)
+    funcs = L.parse_module(ir)
+    for name in ("k_digits_value", "k_digits_size", "k_digit0", "k_digit1", "k_digit2"):
+        rep.kernel("lib-rt:" + name, L.func_hash(funcs[name]))
+    k = K1(rep, funcs, 60000)
+    n = z3.BitVec("n", 64)
+    vs = {"n": n}
+
+    def ex(name: str) -> Any:
+        return L.Executor(funcs, {}, arith="bv").run(name, [n]).ret
+
+    value, size, d0, d1, d2 = (ex(x) for x in ("k_digits_value", "k_digits_size", "k_digit0", "k_digit1", "k_digit2"))
+    SH = 30  # PyLong_SHIFT of 64-bit CPython; checked below against the header
+    short = (n & 1) == 0
+    v = n >> 1
+    absv = z3.If(v < 0, -v, v)
+    ln = z3.If(size < 0, -size, size)
+    B = z3.BitVecVal(1 << SH, 64)
+    hyps = [short]
+    k.prove("GetIntDigits", "the digits denote |value|", "bv", hyps, value == absv, vs)
+    k.prove("GetIntDigits", "the sign of the size is the sign of the value (zero counts as one digit)", "bv", hyps, (size < 0) == (v < 0), vs)
+    k.prove("GetIntDigits", "digit count is minimal: 1 below 2^30, 2 below 2^60, else 3", "bv", hyps, ln == z3.If(z3.ULT(absv, B), z3.BitVecVal(1, 64), z3.If(z3.ULT(absv, z3.BitVecVal(1 << (2 * SH), 64)), z3.BitVecVal(2, 64), z3.BitVecVal(3, 64))), vs)
+    k.prove("GetIntDigits", "every digit is below the base", "bv", hyps, z3.And(z3.ULT(d0, B), z3.ULT(d1, B), z3.ULT(d2, B)), vs)
+    sh = L.Executor(funcs, {}, arith="bv").run("k_shift", []).ret
+    shv = sh if isinstance(sh, int) else z3.simplify(sh).as_long()
+    if shv != SH:
+        rep.error(f"PyLong_SHIFT is {shv}, the digit kernel assumes {SH}")
+    rep.twin("GetIntDigits: one-, two- and three-digit values reachable", all(k.reachable("GetIntDigits", f"len {i}", [short], ln == i) for i in (1, 2, 3)))
+    bad = [o for o in k.obls if o.result != "proved"]
+    rep.section("K1d GetIntDigits (digit view of short ints for the bitwise slow path)", obligations=len(k.obls), proved=len(k.obls) - len(bad), solver_s=round(k.solver_s, 2))
+    rep.add_counts(len(k.obls), len(k.obls) - len(bad), queries=len(k.obls), solver_s=k.solver_s, paths=len(k.obls))
+    for o in bad:
+        if o.result == "unknown":
+            rep.error(f"inconclusive: GetIntDigits {o.label}")
+            continue
+        rep.sample({"kernel": "GetIntDigits", "obligation": o.label, "model": o.model})
+
+        def replay(d: str, o: Any = o) -> tuple[bool, str]:
+            # compiled vs interpreted bitwise ops with the short operand from the model and a long one
+            from vf import mypyc_replay
+
+            nv = int(o.model["n"])
+            if nv >= 2**63:
+                nv -= 2**64
+            short_v = nv >> 1
+            src = "def band(a: int, b: int) -> int:\n    return a & b\ndef bor(a: int, b: int) -> int:\n    return a | b\ndef bxor(a: int, b: int) -> int:\n    return a ^ b\n"
+            big = (1 << 100) - 1
+            cases = [(f, [abs(short_v), big]) for f in ("band", "bor", "bxor")] + [(f, [big, abs(short_v)]) for f in ("band", "bor", "bxor")]
+            return mypyc_replay.build_and_compare(src, cases, d)
+
+        rep.candidate("C kernel GetIntDigits: " + o.label, f"n = {o.model}", o.model, replay)
+
+
 def main(args: Any) -> int:
     rep = Report(PID, args.tier, "clang -O1 LLVM IR of the real lib-rt C sources translated to SMT (bit-vector domain; integer domain with axiomatised truncating division for multiply/divide kernels); all 64-bit operand words; z3")
     only = set(args.only.split(",")) if args.only else None
@@ -388,6 +469,8 @@ def main(args: Any) -> int:
     rep.outside += ["float_ops.c (libm), CPyTagged_FromFloat/TrueDivide (floating point)", "long-int slow paths", "CPyLong_As* conversions (CPython API loops)"]
     if only is None or "K1" in only:
         run_k1(rep, args.tier)
+        run_digits(rep, args.tier)
+        rep.bounds.append("K1d: GetIntDigits for every short tagged int (64-bit), clang -O2 IR with the output buffer scalarised")
     if only is None or "K2" in only:
         try:
             from vf import c15_ir
